@@ -815,6 +815,21 @@ const SECS: &[u64] = &[0, 1, 5, 59, 3600, 86400, 8388608, 4294967296, 9007199254
 
 /// values thrown at every field: boundary numbers, enum spellings and near-misses, durations,
 /// sticker shapes, timestamps, tags, text
+/// a long value made of multi-byte characters at every alignment: whatever fixed byte position code
+/// might cut a value at (64, 100, 128, 255, 256, 1024, 4096 ...) falls inside a character for some of these
+pub fn long_value(r: &mut Rng) -> String {
+    let unit = *r.pick(&["é", "日", "🎵", "ß", "‰"]);
+    let total = *r.pick(&[65usize, 101, 130, 260, 520, 1030, 4100]);
+    let mut v = "x".repeat(r.below(4));
+    while v.len() < total {
+        v.push_str(unit);
+    }
+    if r.chance(1, 2) {
+        v.push_str(*r.pick(&["1", " ", "=", ":", "-"]));
+    }
+    v
+}
+
 pub const SOUP_VALUES: &[&str] = &[
     "0", "1", "2", "255", "256", "4294967295", "4294967296", "18446744073709551615", "18446744073709551616",
     "99999999999999999999999999", "+5", "+0", "+", "007", "00", "-1", "-0", "", " 1", "1 ", "0.000", "1.500",
@@ -1162,7 +1177,13 @@ fn soup_frame(r: &mut Rng) -> (Fields, Option<Vec<u8>>) {
         } else {
             r.pick(KNOWN_KEYS).as_bytes().to_vec()
         };
-        let v = if r.chance(5, 6) { r.pick(SOUP_VALUES).to_string() } else { gen_text(r, 12).replace('\n', " ") };
+        let v = if r.chance(1, 30) {
+            long_value(r)
+        } else if r.chance(5, 6) {
+            r.pick(SOUP_VALUES).to_string()
+        } else {
+            gen_text(r, 12).replace('\n', " ")
+        };
         f.push((k, v.into_bytes()));
     }
     let bin = match r.below(5) {
@@ -1187,6 +1208,10 @@ fn mutate(r: &mut Rng, f: &mut Fields) {
             // a field name outside the parser's alphabet: the frame must not reach the typed layer
             let q = r.below(f.len() + 1);
             f.insert(q, (r.pick(ALIEN_KEYS).as_bytes().to_vec(), r.pick(SOUP_VALUES).as_bytes().to_vec()));
+            continue;
+        }
+        if r.chance(1, 25) {
+            f[p].1 = long_value(r).into_bytes();
             continue;
         }
         match r.below(8) {
